@@ -480,7 +480,7 @@ def register_timing_tasks(broker: ScriptedBroker, tr: Trace, sc: Dict[str, Any])
     nbar = sum(1 for m in specs if m.get("barrier"))
     bar = {"n": 0, "ev": None, "need": nbar}
 
-    async def atask(i: int) -> Any:
+    async def atask(i: int, extra: Any = None) -> Any:
         sp = specs[i]
         tr.add("enter", i)
         if sp.get("clock_step"):
@@ -506,6 +506,16 @@ def register_timing_tasks(broker: ScriptedBroker, tr: Trace, sc: Dict[str, Any])
                 PARKED[i] = fut
                 asyncio.get_running_loop().call_later(d, _wake_parked, i)
                 await fut
+            elif d and sp.get("waits"):
+                # the function waits for the result of another task with taskiq's own client API (AsyncTaskiqTask.wait_result);
+                # that result appears in the backend d seconds from now.  The message is unfinished all the while.
+                from taskiq.result import TaskiqResult as _TR
+                from taskiq.task import AsyncTaskiqTask as _ATT
+
+                rb_ = broker.result_backend
+                gate = f"gate{i}"
+                asyncio.get_running_loop().call_later(d, lambda: rb_.store.__setitem__(gate, _TR(is_err=False, return_value=i, execution_time=0.0)))
+                await _ATT(gate, rb_).wait_result(check_interval=0.05)
             elif d:
                 await asyncio.sleep(d)
             if sp["out"] not in ("ret", "never"):
@@ -520,7 +530,7 @@ def register_timing_tasks(broker: ScriptedBroker, tr: Trace, sc: Dict[str, Any])
             finally:
                 tr.add("exit", i)
 
-    def stask(i: int) -> Any:
+    def stask(i: int, extra: Any = None) -> Any:
         sp = specs[i]
         tr.add("enter", i)
         try:
@@ -588,6 +598,20 @@ def register_timing_tasks(broker: ScriptedBroker, tr: Trace, sc: Dict[str, Any])
     broker._vt_register_dyn = _register_dyn  # type: ignore[attr-defined]
 
 
+def extra_value(kind: str) -> Any:
+    """unusual-but-legal argument values the client serialises without complaint"""
+    if kind == "surrogate":
+        return "report-\udcff.csv"               # os.fsdecode() of an undecodable file name: a lone surrogate
+    if kind == "deep":
+        v: Any = 1
+        for _ in range(250):
+            v = [v]
+        return v
+    if kind == "bigint":
+        return 2**80
+    return "h\u00e9llo \U0001f600"
+
+
 def build_script(broker: ScriptedBroker, sc: Dict[str, Any]) -> List[Any]:
     script = []
     for i, sp in enumerate(sc["msgs"]):
@@ -599,6 +623,8 @@ def build_script(broker: ScriptedBroker, sc: Dict[str, Any]) -> List[Any]:
             (late if sp.get("timeout_late") else labels)["timeout"] = sp["timeout"]
         args = sp.get("args", [i])
         kwargs = sp.get("kwargs") or ({"conn": "postgres://x"} if kind == "plaincls" else None)
+        if sp.get("extra") and kind in ("async", "sync"):
+            kwargs = {**(kwargs or {}), "extra": extra_value(sp["extra"])}
         m = make_message(broker, tname, sp.get("dup_of", i), args, kwargs, labels)
         # labels added after the client computed labels_types (what a pre_send middleware or a foreign producer does):
         # they travel as plain JSON values without a type entry
